@@ -25,7 +25,7 @@ use simcore::diff::{diff_get, Side};
 use simcore::report::{self, Config, EvidenceExtra};
 use simcore::rng::{Fnv, Rng};
 use simcore::runner::{self, Stats, Violation, WorkerCtx};
-use simcore::serdiff::{ser_pair, trace_pair};
+use simcore::serdiff::{ser_pair, trace_pair, trace_pair_as};
 use simcore::shapes::{arity, Aux, ShapeId};
 use simcore::simformat::{from_tokens, to_tokens, Byz, Tok};
 use simcore::simio::{Corrupt, CrashMode, IoErr, ReadStep, SimDisk, SimReader, WriteStep};
@@ -243,6 +243,16 @@ impl<'a> DeclVisitor for Exec<'a> {
                     out.probe("probe.bare_trace_compared_with_inner");
                 }
                 out.log.u64(tp.a.calls as u64);
+            }
+        }
+        // ---- T1 again on a peer that says it is NOT human readable (binary-like format)
+        if let Ok(tp) = trace_pair_as::<D>(p.shape, core, &p.aux, raws.clone(), None, true) {
+            out.evals += 1;
+            out.probe("probe.trace_compared_on_binary_like_peer");
+            if let Some(m) = &tp.a.panicked {
+                out.bad("serialize_does_not_panic", format!("Serialize panicked on a non-human-readable peer: {m}"));
+            } else if tp.a.ok != tp.b.ok || tp.a.toks != tp.b.toks {
+                out.bad("serializer_call_sequence_equals_newtype_struct_around_inner", format!("non-human-readable peer: T drives the serializer with {:?}, the serde-derived newtype struct with {:?}", tp.a.toks, tp.b.toks));
             }
         }
         // ---- T3: format error at call k is propagated
